@@ -108,8 +108,17 @@ def make_listener(problems, passive=False):
         def instance_reference(self, x, ref):
             self.count += 1
             old = x.reference
-            if not passive and ref is not old and ref is not None and ref in (x.reference,):
-                problems.append(("announced-after-effect:reference", ""))
+            if not passive and ref is not old:
+                # nothing of the re-point may be visible yet: the instance still belongs to the old definition's
+                # reference set (and to no other), its outer pins still mirror the old definition
+                mirror = self.ref.get(id(x))
+                if mirror == (id(old) if old is not None else None):
+                    if old is not None and not any(y is x for y in old.references):
+                        problems.append(("announced-after-effect:reference", "instance already out of the old definition's reference set when the re-point was announced"))
+                    if ref is not None and any(y is x for y in ref.references):
+                        problems.append(("announced-after-effect:reference", "instance already in the new definition's reference set when the re-point was announced"))
+                    if old is not None and sorted(id(op.inner_pin) for op in x.pins) != sorted(id(ip) for port in old.ports for ip in port.pins):
+                        problems.append(("announced-after-effect:reference", "outer pins already re-keyed when the re-point was announced"))
             if old is not None and ref is not None and old is not ref:
                 for cp, np in zip(old.ports, ref.ports):
                     for a, b in zip(cp.pins, np.pins):
@@ -245,13 +254,21 @@ def hook_names():
                   if n.startswith("register_") and n != "register_all_listeners")
 
 
-def make_partial(hooks, log):
-    """a listener class overriding exactly `hooks`; each call is logged as (hook, raw args)."""
+class Veto(Exception):
+    pass
+
+
+def make_partial(hooks, log, veto=None):
+    """a listener class overriding exactly `hooks`; each call is logged as (hook, raw args).  veto: a dict
+    {"armed": bool}; while armed the first call raises Veto (a listener refusing the announced change)."""
     from spydrnet.callback.callback_listener import CallbackListener
 
     def mk(h):
         def f(self, *a):
             log.append((h, a))
+            if veto is not None and veto.get("armed"):
+                veto["armed"] = False
+                raise Veto(h)
         f.__name__ = h
         return f
     return type("Partial", (CallbackListener,), {h: mk(h) for h in hooks})
@@ -281,7 +298,7 @@ def _containers():
     return {k: len(v) for k, v in vars(global_callback).items() if k.startswith("_container_")}
 
 
-def _run_with(scn, hooks, ev):
+def _run_with(scn, hooks, ev, veto=False):
     """seed (+ one event) under a listener overriding exactly `hooks`: (outcome, digest, seed log, event log,
     registration problems)."""
     core.reset_world()
@@ -290,8 +307,9 @@ def _run_with(scn, hooks, ev):
     before = _containers()
     log, probs = [], []
     lst = None
+    vstate = {"armed": False} if veto else None
     try:
-        lst = make_partial(hooks, log)()
+        lst = make_partial(hooks, log, vstate)()
     except Exception as ex:
         probs.append(("listener-registration-raised:" + type(ex).__name__, repr(ex)[:200]))
     from vlib.world import World
@@ -305,9 +323,16 @@ def _run_with(scn, hooks, ev):
     else:
         w.discover()
         nseed = len(log)
+        if veto:
+            pre = core.digest(snapshot(w, hidden=False))
+            vstate["armed"] = True
         if ev is not None:
             outcome = engine_a.apply_event(w, engine_a.ops.build_ops(), ev)
         dig = core.digest(snapshot(w))
+        if veto:
+            # the IR only: listeners that were told before the vetoing one (the namespace manager) keep what they
+            # noted - that is inherent in the framework and not what is judged here
+            dig = (pre, core.digest(snapshot(w, hidden=False)))
         # (objects a listener heard of but the pool cannot reach are indexed only now, for the comparison of logs)
         reachable = len(w.pool)
         w.discover(extra=[a for _, args in log for a in args if type(a).__module__.startswith("spydrnet.ir")])
@@ -364,6 +389,16 @@ def partial_worker(case):
                 if got != want:
                     probs.append(("partial-listener-told-differently:%s:%s@%s" % (kind, h, name),
                                   "expected %d announcements %s, got %d %s" % (len(want), want[:3], len(got), got[:3])))
+        # a listener that refuses the *first* change the call announces: announced before it takes effect means that
+        # nothing has happened to the netlists yet
+        if ev is not None and e_full:
+            h0 = e_full[0][0]
+            o, (pre, post), _, e_, pp = _run_with(scn, [h0], ev, veto=True)
+            runs += 1
+            if o != ("raised", "Veto"):
+                probs.append(("veto-ignored:%s@%s" % (h0, name), "outcome %s" % (o,)))
+            elif pre != post:
+                probs.append(("vetoed-change-left-traces:%s@%s" % (h0, name), "the first announcement of the call was refused by a listener, yet the netlists differ from before the call"))
     return {"key": core.digest(case), "nontrivial": True, "outcome": "ok", "problems": probs, "transitions": runs,
             "fired": sorted(fired)}
 
